@@ -90,7 +90,7 @@ def fam_req(rnd, i, thorough):
         ops = []
         for _ in range(rnd.choice([1, 2, 3])):
             m = rnd.choice(["Subscribe", "Unsubscribe", "Ping", "Publish", "SubscribeLimitAtLeastOnce", "Ping", "Subscribe"])
-            op = {"m": m, "tag": tag(), "quit": rnd.choice(["nil", "nil", "open"])}
+            op = {"m": m, "tag": tag(), "quit": rnd.choice(["nil", "nil", "open", "later", "later"])}
             if "ubscribe" in m:
                 op["filters"] = rnd.choice([["a%d" % w], ["a%d" % w, "fail/b%d" % w], ["fail/c%d" % w, "d%d" % w, "fail/e"], ["x/y"]])
             if m == "Publish":
@@ -99,7 +99,7 @@ def fam_req(rnd, i, thorough):
         procs["w%d" % (w + 1)] = {"kind": "script", "ops": ops}
     return {"id": "req-%d" % i, "cfg": {"amax": 2, "emax": 2}, "procs": procs, "epilogue": "drain",
             "random": {"seed": rnd.randrange(1 << 30), "max": 400, "faults": rnd.choice([0, 1, 2]), "pwrite": 0.1, "pdial": 0.1,
-                       "pstore": 0.0, "pbreak": 0.08, "pstall": 0.05}}
+                       "pstore": 0.0, "pbreak": 0.08, "pstall": 0.05, "pquit": rnd.choice([0.02, 0.06, 0.15])}}
 
 
 def fam_close(rnd, i, thorough):
@@ -212,14 +212,21 @@ MC = {
     "reqclose": dict(script="ScriptReqClose", amax=2, emax=2, conns=2, dial=0, write=1, read=0, store=0, calls=3, k_quick=200, k_thorough=25),
     "in":    dict(script="ScriptNone", inmsgs="In012", amax=2, emax=2, conns=2, dial=0, write=1, read=1, store=1, calls=7, k_quick=5, k_thorough=1),
     "in22":  dict(script="ScriptNone", inmsgs="In22", amax=2, emax=2, conns=3, dial=0, write=1, read=1, store=1, calls=7, k_quick=30, k_thorough=3),
+    "restart": dict(script="ScriptQ2", script2="Gen2Q2", stops=1, amax=2, emax=2, conns=2, dial=0, write=0, read=0, store=0, calls=4, k_quick=20, k_thorough=2),
+    "restart2": dict(script="ScriptQ12", script2="Gen2Q1", stops=2, amax=2, emax=2, conns=2, dial=0, write=0, read=0, store=0, calls=4, k_quick=300, k_thorough=30),
+    "damage": dict(script="ScriptQ12", script2="Gen2Q2", stops=1, damage=1, amax=2, emax=2, conns=2, dial=0, write=0, read=0, store=0, calls=4, k_quick=150, k_thorough=15),
+    # the specification with a pinned behaviour switched back on: it regenerates the finding as behaviours that reach a
+    # forbidden state (ExportBad); replayed on the real code they reproduce the defect if it ever returns
+    "devF25": dict(script="ScriptPings2", dev="F25", bad=True, amax=2, emax=2, conns=2, dial=0, write=0, read=1, store=0, calls=4, k_quick=1, k_thorough=1),
     "mixreq": dict(script="ScriptMixReq", amax=2, emax=2, conns=2, dial=1, write=1, read=0, store=0, calls=4, k_quick=25, k_thorough=3),
 }
 MC_FOR = {
     "C01": ["one", "q2"], "C03": ["q2"], "C05": ["two"], "C10": ["one", "mixreq"], "C12": ["close", "reqclose"], "C17": ["max1", "one"],
-    "C18": ["one", "req"], "C14": ["req", "close"], "C08": ["mixreq", "two"], "C11": ["req", "pings"],
-    "C04": ["in22", "in"], "C07": ["in", "in22"], "C13": ["in"],
+    "C18": ["one", "req"], "C14": ["req", "close"], "C08": ["mixreq", "two"], "C11": ["req", "pings", "devF25"],
+    "C04": ["in22", "in"], "C07": ["in", "in22"], "C13": ["in"], "C02": ["restart", "restart2"], "C16": ["damage"],
 }
-INVARIANTS = "TypeOK C01_NoForgedCompletion C03_ExactlyOnceDelivery C05_WireOrderIsIdOrder C07_AckedOnlyIfReturned C12_Signals C17_Bounded C18_ConnectFirst"
+INVARIANTS = ("TypeOK C01_NoForgedCompletion C03_ExactlyOnceDelivery C05_WireOrderIsIdOrder C07_AckedOnlyIfReturned C08_WholePackets C12_Signals C17_Bounded "
+              "C18_ConnectFirst C11_PongIsOwn C02_AdoptMatchesLive C02_NoWarnings C16_ResendFindsRecords C16_PendingAreStored C16_NoKeyCollision")
 
 
 # Liveness of the design under fairness (small instances, no hist): (script, conns, dial, write, read, store, calls, properties)
@@ -234,7 +241,7 @@ LIVE_FOR = {"C01": ["live_one", "live_f4"], "C10": ["live_one", "live_f4"], "C11
 
 def tlc_liveness(ctx, name, dev=""):
     sc, conns, dial, write, read, store, calls, props = LIVE[name]
-    cfg = ("CONSTANTS Script <- %s InMsgs <- NoIn AMax = 2 EMax = 2 MaxConns = %d DialFails = %d WriteFails = %d ReadFails = %d StoreFails = %d "
+    cfg = ("CONSTANTS Script <- %s Script2 <- NoGen2 MaxStops = 0 MaxDamage = 0 DEV_F2 = FALSE DEV_F10 = FALSE DEV_F19 = FALSE DEV_F25 = FALSE InMsgs <- NoIn AMax = 2 EMax = 2 MaxConns = %d DialFails = %d WriteFails = %d ReadFails = %d StoreFails = %d "
            "MaxCalls = %d RecordHist = FALSE DEV_F4 = %s DEV_F6 = %s SampleK = 1\nSPECIFICATION LiveSpec\nPROPERTIES %s\nCHECK_DEADLOCK FALSE\n") % (
         sc, conns, dial, write, read, store, calls, "TRUE" if dev == "F4" else "FALSE", "TRUE" if dev == "F6" else "FALSE", props)
     cfgname = "MC_client_%s%s_gen.cfg" % (name, dev)
@@ -247,16 +254,27 @@ def tlc_behaviours(ctx, name, cap):
     """Model-checks one bounded instance (design-level result) and returns exported behaviours."""
     c = MC[name]
     k = c["k_quick"] if ctx.tier == "quick" else c["k_thorough"]
-    cfg = ("CONSTANTS Script <- %s InMsgs <- " + c.get("inmsgs", "NoIn") + " AMax = %d EMax = %d MaxConns = %d DialFails = %d WriteFails = %d ReadFails = %d "
+    dev = c.get("dev", "")
+    cfg = ("CONSTANTS Script <- %s Script2 <- " + c.get("script2", "NoGen2") + (" MaxStops = %d MaxDamage = %d" % (c.get("stops", 0), c.get("damage", 0)))
+           + "".join(" DEV_%s = %s" % (f, "TRUE" if f == dev else "FALSE") for f in ("F2", "F10", "F19", "F25"))
+           + " InMsgs <- " + c.get("inmsgs", "NoIn") + " AMax = %d EMax = %d MaxConns = %d DialFails = %d WriteFails = %d ReadFails = %d "
            "StoreFails = %d MaxCalls = %d RecordHist = TRUE DEV_F4 = FALSE DEV_F6 = FALSE SampleK = %d\n"
-           "SPECIFICATION Spec\nVIEW view\nINVARIANTS %s\nCHECK_DEADLOCK FALSE\nACTION_CONSTRAINT ExportStep\n") % (
-        c["script"], c["amax"], c["emax"], c["conns"], c["dial"], c["write"], c["read"], c["store"], c["calls"], k, INVARIANTS)
+           "SPECIFICATION Spec\nVIEW view\nINVARIANTS %s\nCHECK_DEADLOCK FALSE\nACTION_CONSTRAINT %s\n") % (
+        c["script"], c["amax"], c["emax"], c["conns"], c["dial"], c["write"], c["read"], c["store"], c["calls"], k,
+        "TypeOK" if c.get("bad") else INVARIANTS, "ExportBad" if c.get("bad") else "ExportStep")
     cfgname = "MC_client_%s_gen.cfg" % name
     with open(os.path.join(ctx.specdir(), cfgname), "w") as f:
         f.write(cfg)
     res = pipeline.model_check(ctx, "MC_client", cfgname, args=["-seed", str(ctx.seed)], timeout=1500)
-    cases = pipeline.parse_cases(res.out)
+    cases = pipeline.parse_cases(res.out, "BAD" if c.get("bad") else "CASE")
+    if c.get("bad"):
+        cases = cases[:40]
+        ctx.cov["regenerated_findings"] = ctx.cov.get("regenerated_findings", {})
+        ctx.cov["regenerated_findings"][name] = len(cases)
     script = pipeline.parse_cases(res.out, "SCRIPT")[0]
+    script2 = pipeline.parse_cases(res.out, "SCRIPT2")[0]
+    if not isinstance(script2, dict):
+        script2 = {}
     steps = [x["steps"] for x in cases]
     keys = [json.dumps(x, sort_keys=True, separators=(",", ":")) for x in steps]
     # a behaviour that is a prefix of another exported one is covered by it
@@ -274,15 +292,36 @@ def tlc_behaviours(ctx, name, cap):
     for p, ops in script.items():
         if ops:
             procs[p] = {"kind": "script", "ops": [{"m": o["m"], "tag": o["tag"], "size": 8, "filters": ["a/b"], "quit": "nil"} for o in ops]}
+    def mkprocs(sc, reader):
+        r = {reader: {"kind": "reader"}}
+        for p, ops in sc.items():
+            if ops:
+                r[p] = {"kind": "script", "ops": [{"m": o["m"], "tag": o["tag"], "size": 8, "filters": ["a/b"], "quit": "nil"} for o in ops]}
+        return r
     for st in maximal:
+        reader = "rd"
+        later = {}
+        for step in reversed(st):   # the gate each process is at after its step = the gate of its next step
+            if "p" in step:
+                if step["p"] in later:
+                    step["next"] = later[step["p"]]
+                later[step["p"]] = step["at"]
+            elif step.get("env") == "stop":
+                later = {}
         for step in st:
             if step.get("env") == "bsend":
                 step["pkt"].update({"topic": "in/t", "len": 8})
+            elif step.get("env") == "adopt":
+                # the processes of the next generation start on the adopted client; its read routine is a new process
+                reader = "rd%d" % step["gen"]
+                step["start"] = mkprocs(script2 if step["gen"] == 2 else {}, reader)
+            elif step.get("p") == "rd":
+                step["p"] = reader
     ctx.cov["behaviours_exported"] = ctx.cov.get("behaviours_exported", 0) + len(cases)
     if k == 1 and len(maximal) == len([1 for _ in maximal]) and cap >= len(maximal):
         ctx.cov["exhaustive_configs"] = ctx.cov.get("exhaustive_configs", []) + [name]
-    return [{"id": "mc-%s-%d" % (name, i), "cfg": {"amax": c["amax"], "emax": c["emax"]}, "procs": procs, "steps": st,
-             "epilogue": "drain"} for i, st in enumerate(maximal)]
+    return [dict({"id": "mc-%s-%d" % (name, i), "cfg": {"amax": c["amax"], "emax": c["emax"]}, "procs": procs, "steps": st,
+                  "epilogue": "drain"}, **({"dev": dev} if c.get("bad") else {})) for i, st in enumerate(maximal)]
 
 
 def behaviours(ctx, families):
@@ -305,13 +344,22 @@ def run(ctx, replay=None):
     if replay:
         with open(replay) as f:
             data = json.load(f)
-        behs = [data["behaviour"]]
+        # Go's select chooses at random among ready cases: a recorded schedule is followed only when the same choices
+        # fall again, so the behaviour is executed several times side by side
+        behs = [dict(data["behaviour"], id="%s#%d" % (data["behaviour"]["id"], k)) for k in range(8)]
     else:
         behs = behaviours(ctx, fams)
         mcs = MC_FOR.get(ctx.prop, [])
         cap = (1200 if ctx.tier == "quick" else 12000) // max(1, len(mcs))
         for name in mcs:
             behs += tlc_behaviours(ctx, name, cap)
+        # behaviours that once exposed a finding (recorded schedules); several copies: Go's select is random
+        cdir = os.path.join(vlib.VERIF, "corpus", ctx.prop)
+        for fn in sorted(os.listdir(cdir)) if os.path.isdir(cdir) else []:
+            with open(os.path.join(cdir, fn)) as f:
+                cb = json.load(f)["behaviour"]
+            behs += [dict(cb, id="corpus-%s#%d" % (fn[:-5], k), dev="corpus") for k in range(6)]
+            ctx.cov["corpus_behaviours"] = ctx.cov.get("corpus_behaviours", 0) + 1
         for name in LIVE_FOR.get(ctx.prop, []):
             tlc_liveness(ctx, name)   # temporal clauses of the property on the design, under fairness
         if mcs:
@@ -351,15 +399,37 @@ def execute_and_judge(ctx, binary, behs, confirm=True):
     ctx.cov["distinct_nontrivial"] += sum(1 for b in behs if len(b["procs"]) > 1 or (b.get("random") or {}).get("faults", 0) > 0
                                           or b.get("steps") or (b.get("frame") or {}).get("cuts"))
     ctx.cov["samples"] = (ctx.cov["samples"] + behs[:2])[:4]
-    ndiv = nrace = 0
+    ndiv = nrace = nmis = 0
+    misfields = ctx.cov.setdefault("state_mismatch_fields", {})
     for sb, tp in shards:
         with open(tp) as f:
             for line in f:
+                if ('"e":"diverge"' in line or '"e":"mismatch"' in line) and sb[json.loads(line)["case"] - 1].get("dev"):
+                    # a behaviour of the specification with a pinned defect switched on: the repaired code leaves it
+                    ctx.cov["regenerated_not_reproduced"] = ctx.cov.get("regenerated_not_reproduced", 0) + ('"e":"diverge"' in line)
+                    continue
                 if '"e":"diverge"' in line:
                     if "select-race" in line:
                         nrace += 1
                     else:
                         ndiv += 1
+                        if ndiv <= 5:
+                            e = json.loads(line)
+                            ctx.save_replay("diverge-%s.json" % sb[e["case"] - 1]["id"], {"behaviour": sb[e["case"] - 1], "diverge": e})
+                elif '"e":"harness-panic"' in line:
+                    raise vlib.Inconclusive("the harness itself failed: " + line[:300])
+                elif '"e":"mismatch"' in line:
+                    if "select-race" in line:
+                        nrace += 1
+                        continue
+                    nmis += 1
+                    e = json.loads(line)
+                    k = "%s want=%s got=%s" % (e.get("field"), e.get("want"), e.get("got"))
+                    misfields[k] = misfields.get(k, 0) + 1
+                    if len(misfields) <= 5 and misfields[k] == 1:
+                        ctx.save_replay("mismatch-%s-%s.json" % (e.get("field"), sb[e["case"] - 1]["id"]), {"behaviour": sb[e["case"] - 1], "mismatch": e})
+    ctx.cov["state_mismatches"] = ctx.cov.get("state_mismatches", 0) + nmis
+    ctx.cov["state_comparisons"] = ctx.cov.get("state_comparisons", 0) + sum(1 for b in behs for st in b.get("steps") or [] if "x" in st)
     ctx.cov["divergences"] = ctx.cov.get("divergences", 0) + ndiv
     ctx.cov["select_races"] = ctx.cov.get("select_races", 0) + nrace
     seen = {}
@@ -369,8 +439,9 @@ def execute_and_judge(ctx, binary, behs, confirm=True):
         seen[key] = seen.get(key, 0) + 1
         if seen[key] > 2:
             continue
-        b2 = dict(beh)
-        path = ctx.save_replay("%s-%s.json" % (clause, beh["id"]), {"behaviour": b2, "clause": clause, "event_seq": seq, "signature": sig})
+        b2 = scripted_from_trace(beh, tp, cid) if beh.get("random") else dict(beh)
+        path = ctx.save_replay("%s-%s.json" % (clause, beh["id"]), {"behaviour": b2, "clause": clause, "event_seq": seq, "signature": sig,
+                                                                    "explored_as": beh if beh.get("random") else None})
         try:   # the recorded trace of that execution, for diagnosis
             with open(path[:-5] + ".trace", "w") as out, open(tp) as f:
                 for line in f:
@@ -380,6 +451,30 @@ def execute_and_judge(ctx, binary, behs, confirm=True):
             pass
         ctx.violation(clause, "behaviour=%s event=%s %s" % (beh["id"], seq, json.dumps(sig)[:200]), replay=path, sig=sig)
     ctx.cov["predicate_failures"] = {"%s@%s/%s" % k: v for k, v in seen.items()}
+
+
+def scripted_from_trace(beh, trace_path, cid):
+    """The schedule the explorer took, as a step-by-step behaviour: the replay does not depend on timing."""
+    steps = []
+    with open(trace_path) as f:
+        for line in f:
+            if '"e":"step"' not in line or not ('"case":%d,' % cid in line or '"case":%d}' % cid in line):
+                continue
+            e = json.loads(line)
+            if e.get("case") != cid:
+                continue
+            if "env" in e:
+                st = {"env": e["env"]}
+                for k in ("c", "key", "how", "start", "in", "host", "p"):
+                    if e.get(k) not in (None, 0, ""):
+                        st[k] = e[k]
+            else:
+                st = {"p": e["p"], "at": e["at"], "o": e["o"], "n": e.get("n", 0)}
+            steps.append(st)
+    r = beh["random"]
+    b2 = {k: v for k, v in beh.items() if k != "random"}
+    b2.update({"id": beh["id"], "steps": steps, "auto": True, "mute": r.get("mute", []), "listseed": r["seed"] + 17})
+    return b2
 
 
 def signature(trace_path, cid, seq):
